@@ -556,6 +556,15 @@ impl CodegenContext {
                 failure_message,
                 ..
             } => {
+                // The assertion is evaluated when the test runs, with the state of the machine at hand. Here we only note
+                // which symbols it refers to.
+                self.track_usages(|evaluator| {
+                    evaluator.track_identifiers(value);
+                    if let Some(fm) = &failure_message {
+                        evaluator.track_interpolated_identifiers(fm);
+                    }
+                });
+
                 if self.try_current_target_pc().is_some() && self.options.active_test.is_some() {
                     let extracted_evaluator = self.get_evaluator().snapshot();
 
@@ -1121,6 +1130,10 @@ impl CodegenContext {
                             }
                             None => {
                                 // No active test, so enumerate all tests
+                                if self.options.enable_greedy_analysis {
+                                    // Nothing is emitted for a test that is not run, but we do want to know what is in it
+                                    self.with_dummy_segment(|s| s.emit_tokens(&block.inner))?;
+                                }
                                 true
                             }
                         };
@@ -1144,6 +1157,11 @@ impl CodegenContext {
                 }
             }
             Token::Trace { args, .. } => {
+                self.track_usages(|evaluator| {
+                    args.iter()
+                        .for_each(|(expr, _)| evaluator.track_identifiers(expr));
+                });
+
                 if self.try_current_target_pc().is_some() && self.options.active_test.is_some() {
                     let exprs = args.iter().map(|a| a.0.clone()).collect_vec();
                     let extracted_evaluator = self.get_evaluator().snapshot();
@@ -1251,6 +1269,23 @@ impl CodegenContext {
         }
     }
 
+    /// Records which symbols the expressions that 'f' evaluates refer to, without evaluating them for real: what
+    /// cannot be resolved now (e.g. the registers of the cpu, in an assertion) is not an error
+    fn track_usages<F: FnOnce(&Evaluator)>(&mut self, f: F) {
+        let evaluator = self.get_evaluator();
+        f(&evaluator);
+        for usage in evaluator.usages() {
+            if usage.symbol_index.is_some() {
+                self.analysis.add_symbol_usage(
+                    &self.symbols,
+                    self.current_scope_nx,
+                    &usage.path.data,
+                    usage.path.span,
+                );
+            }
+        }
+    }
+
     fn symbol_definition(&mut self, symbol_nx: SymbolIndex) -> &mut Definition {
         self.analysis
             .get_or_create_definition_mut(DefinitionType::Symbol(symbol_nx))
@@ -1329,7 +1364,11 @@ impl CodegenContext {
                 args: &[&Located<Expression>],
             ) -> EvaluationResult<Option<SymbolData>> {
                 let expr = args.first().unwrap();
-                match ctx.evaluate_expression(expr, false) {
+                // Whatever the argument refers to is used here. What it does not refer to is not an error, it is the question.
+                let first_usage = ctx.num_usages();
+                let result = ctx.evaluate_expression(expr, true);
+                ctx.keep_resolved_usages(first_usage);
+                match result {
                     Ok(result) => {
                         if result.is_some() {
                             Ok(Some(1.into()))
